@@ -16,12 +16,12 @@ CHECK = {
              "is reported; heap guard 3 GiB); two parses agree in error text or in sorting, limit, grouping and "
              "Conditions.String() (durations modulo k*(ref1-ref2)). Non-trivial: accepted by the grammar and carrying >= 2 "
              "filters, a variable, a list or a negation; distinct = distinct input strings."),
-    "technique": "grammar-based and mutation-based generation (rapid) with an in-process watchdog, panic capture and a double-parse determinism check",
+    "technique": "grammar-based and mutation-based generation (rapid) with an in-process watchdog, panic capture and a double-parse determinism check; in the thorough tier additionally go's native coverage-guided fuzzer on the same oracle, seeded with 300 examples of the structured generator",
     "level_text": ("generated query texts, from well-formed to raw bytes, run through query.Parse under a watchdog; finds panics, "
                    "simplification loops without progress, slow normal-form handling and run-to-run differences; no absence claim"),
     "level_note": ("promptness is only asserted for inputs whose estimated normal form stays below 200 conjuncts; nesting deeper "
                    "than 300 and inputs longer than a few KiB are not generated (the grammar parser is super-linear in the nesting "
-                   "depth: 100 000 parentheses take > 10 s); native go-fuzz campaign of DESIGN 5(c) not wired into the driver; the "
+                   "depth: 100 000 parentheses take > 10 s); the native fuzz campaign (thorough tier) cannot be pinned to a seed: its evidence counts executions and coverage-increasing inputs, a failing input is saved as the replay; the "
                    "size estimate and the shapes of open findings are computed with the production grammar (parser.ParseString / "
                    "queryTerm.QueryConditions), never with the simplification code under test"),
     "assumptions": ["a parse that is still inside internal/query after 25 s of wall-clock and of CPU time on an input with a small estimated normal form is a hang",
@@ -35,5 +35,7 @@ CHECK = {
     "campaigns": [
         {"test": "TestVerifC14", "checks": {"quick": 30000, "thorough": 1000000}, "timeout": {"quick": 900, "thorough": 3600}},
         {"test": "TestVerifC14Fixed", "fixed": True, "checks": {"quick": 1, "thorough": 1}},
+        # coverage-guided byte-level campaign (go's native fuzzer, not pinnable to a seed): thorough tier only
+        {"fuzz": "FuzzVerifC14", "fuzztime": {"thorough": 240}, "tiers": ["thorough"]},
     ],
 }
